@@ -1030,9 +1030,9 @@ def main_streams(c, flags, scale=1):
   quick = c.tier == 'quick'
   n = {'pc': 420, 'meas': 260, 'trial': 320, 'md': 150, 'delta': 150, 'suggestion': 100, 'metric': 80,
        'problem': 80, 'study': 200, 'sreq': 40, 'sdec': 60, 'esreq': 40, 'esdec': 60}
-  mult = (1 if quick else 12) * scale
+  mult = (2 if quick else 14) * scale
   n = {k: v * mult for k, v in n.items()}
-  side = (40 if quick else 300) * scale
+  side = (60 if quick else 400) * scale
   g = Gen(c.rng)
   b = Batch(c, flags)
   corpus = corpus_objects()
@@ -1099,7 +1099,7 @@ def corpus_objects():
 def time_sweep(c):
   """Dense sweep of time stamps through the real converters (whole microseconds must survive)."""
   tr, pc = V['tr'], V['pc']
-  n = 12000 if c.tier == 'quick' else 250000
+  n = 30000 if c.tier == 'quick' else 400000
   r = c.rng
   now = 1790000000 * 10**6
   vals = [0, 1, 999999, 10**6, 2**31 * 10**6 - 1, 2**31 * 10**6, 2**31 * 10**6 + 1, now, now + 1, 4102444799999999]
